@@ -2,7 +2,7 @@
    combinations model and the independent-set model; truth-table / product
    decisions evaluated on the energies the implementation reported. *)
 From Coq Require Import List ZArith QArith Qcanon Bool Arith.
-From Dimod Require Import Base.Util Model.Poly Model.Comb Gen.Gen_Gates Model.Gates Model.Knap Model.MultCircuit.
+From Dimod Require Import Base.Util Model.Poly Model.Comb Gen.Gen_Gates Model.Gates Model.Knap Model.MultCircuit Model.Qap Model.Magic.
 Import ListNotations.
 Open Scope Qc_scope.
 
@@ -36,7 +36,11 @@ Inductive case :=
 | CMk (values weights capacities : list Qc) (obj : obs) (cons : list (obs * sense * Qc))
       (rows : list (list bool * bool * Qc))
 | CBp (weights : list Qc) (capacity : Qc) (obj : obs) (cons : list (obs * sense * Qc))
-      (rows : list (list bool * bool * Qc)).
+      (rows : list (list bool * bool * Qc))
+| CQap (n : nat) (F D : matrix) (obj : obs) (cons : list (obs * sense * Qc))
+       (rows : list (list bool * bool * Qc))
+(* magic_square(n, power): reported constraints; integer assignments (cells row by row, then "sum") with check_feasible *)
+| CMagic (n power : nat) (cons : list (obs * sense * Qc)) (rows : list (list Z * bool)).
 
 Definition bits_eqb := list_eqb Bool.eqb.
 Definition rows_complete (n : nat) (rows : list (list bool * Qc)) : bool :=
@@ -69,6 +73,12 @@ Definition check_lcqm (m : lcqm) (nvars : nat) (obj : obs) (cons : list (obs * s
                 (length bits =? nvars)%nat
                 && Bool.eqb feas (feasibleb m x) && Bool.eqb feas (okf x)
                 && Qc_eqb en (energy (q_obj m) x) && Qc_eqb en (objf x)) rows.
+
+Definition shift_poly (p : poly) (rhs : Qc) : poly := mkPoly (p_off p - rhs) (p_lin p) (p_quad p).
+Definition qcon_matches (nvars : nat) (mc : qcon) (oc : obs * sense * Qc) : bool :=
+  let '(mp, msn, mrhs) := mc in
+  let '(o, sn, rhs) := oc in
+  sense_eqb sn msn && poly_coeff_eqb nvars (shift_poly mp mrhs) (shift_poly (obs_poly o) rhs).
 
 Definition check (c : case) : bool :=
   match c with
@@ -117,4 +127,10 @@ Definition check (c : case) : bool :=
       let n := length weights in
       check_lcqm (bp_model weights capacity) (n + n * n) obj cs rows
            (bp_ok weights capacity n) (bp_open_bins n)
+  | CQap n F D obj cs rows =>
+      let m := qap_model n F D in
+      check_lcqm m (n * n) obj cs rows (qap_ok n) (energy (q_obj m))
+  | CMagic n power cs rows =>
+      forallb2 (qcon_matches (n * n + 1)) (magic_constraints n power) cs
+      && forallb (fun r => Bool.eqb (snd r) (magic_feasibleb n power (zsample (fst r)))) rows
   end.
